@@ -44,6 +44,12 @@ def gen_case(rng):
             for c in inp["cells"].values():
                 if c.get("p") and len(c["p"]) >= 2 and None not in c["p"] and rng.random() < 0.2:
                     c["p"] = list(reversed(c["p"]))
+    if kind == "prob":
+        for inp in ds["inputs"]:
+            for c in inp["cells"].values():
+                if c.get("p") and None not in c["p"] and rng.random() < 0.15:
+                    j = rng.randint(0, len(c["p"]))
+                    c["p"] = [0.0 if i_ < j else 1.0 for i_ in range(len(c["p"]))]
     sel = {}
     if rng.random() < 0.5:
         # selection options in force (-d/-tod/-t/-o/-l/...): the case sets must stay identical across inputs
@@ -285,6 +291,42 @@ def run_case(case, ctx):
                         break
         data.get_scores = orig_gs
         ctx.case("%d|%s|%s|request-ledger" % (F, bool(cpath), fmts), F >= 2)
+
+    # the Brier family on the common case set of THIS dataset (different missing patterns per file, probabilities of exactly
+    # 0 and 1 in single files): every input's score is the definition evaluated on all common cases, none silently left out
+    if kind == "prob" and not sargv and not cpath:
+        from vmon import refmetrics
+        th0 = ds["inputs"][0]["thresholds"][0]
+        # exact 0 / 1 probabilities in one file only
+        fams = {"bs": refmetrics.brier, "bsrel": refmetrics.brier_rel, "bsres": refmetrics.brier_res, "bss": refmetrics.brier_ss,
+                "bssrel": refmetrics.brier_ss_rel, "bssres": refmetrics.brier_ss_res}
+        for mname, fn in fams.items():
+            o_ = runner.run_cli(paths + ["-m", mname, "-r", gen.fnum(th0), "-x", "no", "-type", "csv"])
+            if o_.status != "ok":
+                continue
+            h_, rows_ = runner.parse_csv(o_.stdout)
+            for k in range(F):
+                try:
+                    cs = refmodel.valid_cases(ds, k, [("obs",), ("thr", th0)], opts)
+                except KeyError:
+                    break
+                ob = [1.0 if c_[3][0] > th0 else 0.0 for c_ in cs]
+                pp = [1.0 - c_[3][1] for c_ in cs]
+                if any(abs(x * 10 - round(x * 10)) < 1e-9 and 0 < x < 1 for x in pp):
+                    continue            # a probability on an interior bin edge (float noise decides the bin)
+                bins = {}
+                for x in pp:
+                    bins.setdefault(refmetrics._bins10(x), set()).add(x)
+                if mname != "bs" and any(len(v) > 1 for v in bins.values()) and mname in ("bss",):
+                    pass
+                want = fn(ob, pp) if cs else float("nan")
+                ctx.count("brier_on_common_cases")
+                txt = rows_[0][len(h_) - F + k] if rows_ else "nan"
+                if want != want or want is None:
+                    continue
+                if not vutil.close_text_number(txt, want, 5) and not (txt.lower() != "nan" and abs(float(txt) - want) < 2e-6):
+                    ctx.violation("score-not-on-common-cases|%s" % mname, "-m %s -r %s -x no input %d: csv %s, the definition on the %d common "
+                                  "valid cases gives %r" % (mname, th0, k, txt, len(cs), want), case)
 
     # metric-entry ledger: how many cases enter a probabilistic score, per input (a score must not drop cases on its own)
     if kind == "prob":
